@@ -37,12 +37,14 @@ def replay(pid, path):
 
 def _c20():
     import parser as pk
-    return {"builders": [pk.build], "level": "other", "explanation": "cursor coordinate lemmas"}
+    return {"builders": [pk.build], "level": "other", "explanation": "cursor coordinate lemmas",
+            "replay_fn": pk.replay_fn, "replay_file_fn": pk.replay_file}
 
 
 def _c01():
     import parser as pk
-    return {"builders": [pk.build], "level": "other", "explanation": "lexer/cursor kernel"}
+    return {"builders": [pk.build], "level": "other", "explanation": "lexer/cursor kernel",
+            "replay_fn": pk.replay_fn, "replay_file_fn": pk.replay_file}
 
 
 PROPS = {"C20": _c20, "C01": _c01}
